@@ -584,14 +584,16 @@ Definition rc_uint (c : rc) : Z :=
 Definition cst_uint (c : cst) : Z :=
   match c with Num r => rc_uint r | Cplx re _ => rc_uint re | _ => 0 end.
 
-(* shiftConstError: None = the count is usable *)
-Definition shift_const_error (o : op) (c : cst) : option err :=
+(* shiftConstError: None = the count is usable.  zero1: the left operand is
+   zero.  A count above gen_shift_count_max is rejected for both shifts; a
+   left shift count of at least gen_shift_limit is rejected unless the left
+   operand is zero. *)
+Definition shift_const_error (o : op) (zero1 : bool) (c : cst) : option err :=
   match repr KUint c with
   | Ok c' =>
-    match o with
-    | OShl => if gen_shift_limit <=? cst_uint c' then Some EShiftLarge else None
-    | _ => None
-    end
+    if (match o with OShl => negb zero1 | _ => false end) && (gen_shift_limit <=? cst_uint c') then Some EShiftLarge
+    else if gen_shift_count_max <? cst_uint c' then Some EShiftLarge
+    else None
   | _ =>
     match c with
     | Num (I64 n) | Num (Big n) => if n <? 0 then Some EShiftNeg else Some EShiftOvfUint
@@ -606,7 +608,7 @@ Definition shr (z sc : Z) : Z :=
 
 (* intConst shift (int64Const differs only for the right shift) *)
 Definition shift_int (o : op) (small : bool) (z : Z) (c2 : cst) : res cst :=
-  match shift_const_error o c2 with
+  match shift_const_error o (z =? 0) c2 with
   | Some e => Err e
   | None =>
     let sc := cst_uint c2 in
